@@ -163,10 +163,11 @@ def groupLoop : Group → List DDigest → List Group
     if sameGroup d cur.ref then groupLoop { cur with proteins := cur.proteins ++ [d.protein] } ds
     else cur :: groupLoop ⟨d, [d.protein]⟩ ds
 
-/-- `group_digests`; `none` = the `digests[0]` index panic on an empty digest list -/
+/-- `group_digests`; an empty digest list gives no groups (guarded; it used to index `digests[0]` and panic).
+    Always `some`. -/
 def groupDigests (ds : List DDigest) : Option (List Group) :=
   match isort digestLe ds with
-  | [] => none
+  | [] => some []
   | d :: rest => some (groupLoop ⟨d, []⟩ (d :: rest))
 
 /-! ## `Parameters::digest` -/
@@ -272,12 +273,12 @@ variable {α : Type} [Add α] [OfNat α 0] [BEq α] [LE α] [DecidableLE α]
 /-- `reorder_peptides`, up to the order of the result -/
 def reorder (l : List (Pep α)) : List (Pep α) := (mergeAll l).map finishProteins
 
-/-- `Parameters::digest(&Fasta { targets: recs, .. })`; `none` = panic (no digest at all) -/
+/-- `Parameters::digest(&Fasta { targets: recs, .. })` (no digest at all: the empty database; never `none`) -/
 def digestRecs (cfg : Cfg α) (recs : List (Bytes × Bytes)) : Option (List (Pep α)) :=
   (groupDigests (fastaDigest cfg.par cfg.tag cfg.gen recs)).map fun groups => reorder (buildForms cfg groups)
 
 /-- `Parameters::digest(&Fasta::parse(text, decoy_tag, generate_decoys))`, as a set of entries;
-    `none` = panic in `Fasta::parse` (bare `>` header) or in `group_digests` (no digest) -/
+    `none` = panic in `Fasta::parse` (bare `>` header) -/
 def buildDb (cfg : Cfg α) (text : Bytes) : Option (List (Pep α)) :=
   match C05.parse cfg.tag cfg.gen text with
   | none => none
